@@ -25,7 +25,8 @@ def check(tier, seed, replay=None):
     run.cov["trusted_base"] = TRUSTED_BASE_COMMON + ["the Go compiler's reading of the emitted literals is the observable; Python's width-typed evaluation of the parenthesised flag expressions is the oracle"]
     broken = None
     try:
-        proof_step(run, "props/C15.v", ["C15_partial"])
+        run_translator("t2", [os.path.join(REPO, "primitive.go"), os.path.join(REPO, "gen_templates.go")], "gen/Tables.v", "T2(primitive.go, gen_templates.go)")
+        proof_step(run, "props/C15.v", ["C15_partial", "C15_widths"])
     except BrokenTie as e:
         broken = e
     rng = SplitMix64(seed).fork("C15")
